@@ -742,8 +742,19 @@ def r06g(ctx, classes):
         ctx.unknown("R06g", "pyrex.internal_functions.LazyMutableClass", "__setattr__ hook found", "")
 
 
+def r06h(ctx):
+    """A copy that shares the inner `[leading, trailing]` pairs of `_buffers` (or the inner filter lists) with its original lets
+    `set_buffers` / `filter_frequencies` on one object change what the other would compute, while only the first one's cache is cleared:
+    the other serves stale values.  C04's R04c decides that copy/__add__ share nothing; reported here as well."""
+    from . import c04
+    from ._cross import relay
+    relay(ctx, "R06h", "copies and sums of function-backed signals share no component list, so an in-place update of one cannot outdate the cache of another (= R04c)",
+          "C04", c04.r04c, "R04c", kind="N")
+
+
 def run(ctx):
     classes = lazy_classes(ctx.repo)
+    ctx.guard(r06h)
     if ctx.tier == "quick":
         pass
     ctx.guard(r06a, classes)
